@@ -48,6 +48,7 @@ func (r *replayer) cleanup() {
 
 var reNow = regexp.MustCompile(`\btime\.Now\(\)`)
 var reSince = regexp.MustCompile(`\btime\.Since\(`)
+var reListen = regexp.MustCompile(`\bnet\.Listen\(`)
 
 // writeOverlay prepares the overlay JSON (harness files + clock-redirected sources).
 func (r *replayer) writeOverlay(dir string) (string, error) {
@@ -73,12 +74,17 @@ func (r *replayer) writeOverlay(dir string) (string, error) {
 		if err != nil {
 			return "", err
 		}
-		if !reNow.Match(b) && !reSince.Match(b) {
+		if !reNow.Match(b) && !reSince.Match(b) && !reListen.Match(b) {
 			continue
 		}
 		nb := reNow.ReplaceAll(b, []byte("vpNow()"))
 		nb = reSince.ReplaceAll(nb, []byte("vpSince("))
-		nb = append(nb, []byte("\nvar _ time.Duration // keeps the import used after the clock redirection\n")...)
+		// net.Listen goes through the harness, which hands out its stub listener when one is
+		// installed (C28) and calls the real net.Listen otherwise
+		nb = reListen.ReplaceAll(nb, []byte("vpNetListen("))
+		if reNow.Match(b) || reSince.Match(b) {
+			nb = append(nb, []byte("\nvar _ time.Duration // keeps the import used after the clock redirection\n")...)
+		}
 		out := filepath.Join(dir, "clk_"+base)
 		if err := os.WriteFile(out, nb, 0o644); err != nil {
 			return "", err
